@@ -8,11 +8,16 @@ or scheduled was demanded somewhere in the run's own history: it is in the initi
 initial events), or it is the next step the simulator itself returned from a step before `until`, or it
 is the delayed output time of an output that another simulator's step delivered to one of its trigger
 connections.
+`complete_at_end`: conversely, when a run has ended (every process has ended, no failure), every step
+of the initial schedule and every step demanded during the run whose time lies before `until` has been
+executed.  Together: at the end of a run the set of executed steps is exactly the demanded set, each
+executed once, in increasing order.
 NOT proved (liveness half, `complete`): that every demanded time is eventually executed; it needs
 the termination argument of C05 and is covered by the correspondence runs and the monitor only.
 -/
 import MosaikProofs.Sched.Errors
 import MosaikProofs.Sched.Sources
+import MosaikProofs.Sched.Complete
 namespace Mosaik.C02
 open Mosaik
 
@@ -184,5 +189,122 @@ theorem only_demanded_steps {cfg : Cfg} (hw : WFCfg cfg) (as : List Action) {s :
     · simpa [initState, initSim] using h
     · simp [initState, initSim] at h
   · exact Or.inr h
+
+/-! ### completeness -/
+
+theorem exec_append {cfg : Cfg} : ∀ (l1 l2 : List Action) (s : State),
+    exec cfg s (l1 ++ l2) = (exec cfg s l1).bind (fun s' => exec cfg s' l2)
+  | [], _, _ => rfl
+  | a :: l1, l2, s => by
+    simp only [List.cons_append, exec]
+    cases step cfg s a with
+    | none => rfl
+    | some s1 => exact exec_append l1 l2 s1
+
+/-- along a run, a step that is scheduled stays scheduled until it has begun -/
+theorem scheduled_or_begun {cfg : Cfg} (hw : WFCfg cfg) : ∀ (as : List Action) {s s' : State}, Reach cfg s →
+    exec cfg s as = some s' → s'.failed = none → ∀ b x, (x ∈ (s.sims b).next ∨ x ∈ (s.sims b).begun) →
+      (x ∈ (s'.sims b).next ∨ x ∈ (s'.sims b).begun)
+  | [], s, s', _, h, _ => by
+    simp [exec] at h; subst h
+    intro b x hx; exact hx
+  | a :: as, s, s', hr, h, hnf => by
+    simp only [exec] at h
+    cases hs : step cfg s a with
+    | none => simp [hs] at h
+    | some s1 =>
+      rw [hs] at h
+      have hnf1 := exec_cons_not_failed hs h hnf
+      intro b x hx
+      apply scheduled_or_begun hw as (Reach.step hr hs) h hnf b x
+      have hfr := step_frame hw (reach_good hw hr) hs hnf1
+      rcases hx with hx | hx
+      · rcases step_next_keeps hs b x hx with h1 | ⟨ha, hhead⟩
+        · exact Or.inl h1
+        · right
+          rcases hfr with hl | ⟨q, c, haq, _, _, _, _, hhead2, _, _, _, hbeg, _, _⟩
+          · -- a `deps` action that begins nothing does not exist
+            exfalso
+            subst ha
+            simp only [step, stepDeps] at hs
+            split at hs
+            · cases hpc : (s.sims b).pc with
+              | waitDeps t =>
+                simp only [hpc] at hs
+                split at hs
+                · cases hn : (s.sims b).next with
+                  | nil => rw [hn] at hhead; cases hhead
+                  | cons c rest =>
+                    simp only [hn, Option.some.injEq] at hs
+                    subst hs
+                    have h1 := hl.begun b
+                    have h2 := beginStep_pc cfg s b c rest hnf1
+                    unfold beginStep at h1
+                    have hprog : ¬ c ≠ (s.sims b).progress := by
+                      intro hne
+                      have : (beginStep cfg s b c rest).failed.isSome = true := by
+                        unfold beginStep; rw [if_pos hne]; exact State.fail_failed _ _
+                      rw [hnf1] at this; cases this
+                    rw [if_neg hprog] at h1
+                    have hloop : ¬ (c.tail.any fun k => decide (k ≥ cfg.maxLoop)) = true := by
+                      intro hl2
+                      have : (beginStep cfg s b c rest).failed.isSome = true := by
+                        unfold beginStep; rw [if_neg hprog, if_pos hl2]; exact State.fail_failed _ _
+                      rw [hnf1] at this; cases this
+                    rw [if_neg hloop] at h1
+                    obtain ⟨f, hfctrl, hsnd⟩ := getInputData_snd cfg (s.upd b fun z => { z with cur := some c, next := rest }) b c
+                    simp only [hsnd, State.emit_sims, State.upd_same] at h1
+                    have hf := hfctrl ({ s.sims b with cur := some c, next := rest })
+                    simp only [SimSt.ctrl, Prod.mk.injEq] at hf
+                    rw [hf.2.2.2.2] at h1
+                    simp at h1
+                · cases hs
+              | init => simp [hpc] at hs
+              | awaitSettle a dl => simp [hpc] at hs
+              | inStep => simp [hpc] at hs
+              | inGet => simp [hpc] at hs
+              | done => simp [hpc] at hs
+            · cases hs
+          · rw [ha] at haq
+            cases haq
+            rw [hbeg]
+            rw [hhead] at hhead2
+            cases hhead2
+            exact List.mem_cons_self
+      · right
+        rcases hfr with hl | ⟨q, c, _, _, _, _, _, _, _, _, _, hbeg, _, hoth⟩
+        · rw [hl.begun]; exact hx
+        · by_cases hbq : b = q
+          · subst hbq; rw [hbeg]; exact List.mem_cons_of_mem _ hx
+          · rw [hoth b hbq]; exact hx
+
+/-- **C02, "every demanded time is executed" (at the end of a run).**  `as` is a complete run: it leads from
+the initial state to a state that has not failed and in which every simulator's process has ended.  Then every
+step of the initial schedule and every step demanded during the run (own returned next step, delivered trigger)
+whose time lies before `until` has been executed. -/
+theorem complete_at_end {cfg : Cfg} (hw : WFCfg cfg) (as : List Action) {s : State}
+    (he : exec cfg (initState cfg) as = some s) (hnf : s.failed = none) (hend : ∀ p, p < cfg.n → (s.sims p).pc = .done)
+    {b : Sid} (hb : b < cfg.n) {x : TT} (hx : x ∈ (cfg.sim b).next0 ∨ DemandedIn cfg (initState cfg) as b x)
+    (ht : TT.time x < cfg.until_) : x ∈ (s.sims b).begun := by
+  have hr : Reach cfg s := exec_reach as Reach.init he
+  have hsb : x ∈ (s.sims b).next ∨ x ∈ (s.sims b).begun := by
+    rcases hx with hx | ⟨as1, a, as2, s0, hsplit, hx0, hd⟩
+    · exact scheduled_or_begun hw as Reach.init he hnf b x (Or.inl (by simpa [initState, initSim] using hx))
+    · rw [hsplit, exec_append, hx0] at he
+      simp only [Option.bind_some, exec] at he
+      cases hs : step cfg s0 a with
+      | none => rw [hs] at he; cases he
+      | some s1 =>
+        rw [hs] at he
+        have hr0 : Reach cfg s0 := exec_reach as1 Reach.init hx0
+        have hnf1 := exec_cons_not_failed hs he hnf
+        exact scheduled_or_begun hw as2 (Reach.step hr0 hs) he hnf b x (Or.inl (demand_scheduled hs hnf1 hd))
+  rcases hsb with h | h
+  · exfalso
+    have h1 := ((reach_good hw hr hnf).1 b hb).le_next x h
+    have h2 := reach_doneOk hr hnf b (hend b hb)
+    have := TT.time_mono h1
+    omega
+  · exact h
 
 end Mosaik.C02
